@@ -236,27 +236,7 @@ def gen_malformed(rng):
 
 
 # ------------------------------------------------------------------ messages
-def build_messages(B, rng, style, defs):
-    """defs: list of (indicator, body record ty).  Returns (app base class, [message classes])"""
-    from nasdaq_protocols import itch, ouch, sqf
-    from nasdaq_protocols.common.message import structures as s
-    app = f'verif_{style}_{next(bc._counter)}'
-    core = {'itch': itch, 'ouch': ouch, 'sqf': sqf}[style]
-
-    def init_subclass(cls, **kwargs):
-        kwargs['app_name'] = app
-        super(base, cls).__init_subclass__(**kwargs)
-    base = type(f'VApp{next(bc._counter)}', (core.Message,), {'__init_subclass__': classmethod(init_subclass), '__test__': False},
-                app_name=app)
-    classes = []
-    for ind, body in defs:
-        kw = {'indicator': ind}
-        if style != 'itch':
-            kw['direction'] = 'outgoing'
-        body_cls = B.build(body)
-        cls = type(f'VMsg{next(bc._counter)}', (base,), {'BodyRecord': body_cls, '__test__': False}, **kw)
-        classes.append(cls)
-    return base, classes
+build_messages = bc.build_messages          # (shared with C02 and the re-encode histories)
 
 
 def message_case(B, style, defs, k, v, tail):
@@ -442,6 +422,82 @@ def run_families(ctx, B, n_fam):
     ask_families(ctx, lines, expect)
 
 
+# ------------------------------------------------------------------ one message object over time: encode, change in place, encode again
+def reenc_fails(B, style, tail, which, how):
+    """the same kind of failure (`how`: an encoding judged wrong / a change refused / ...) on a smaller case - a history that
+    stops making sense after shrinking (a path into a list element that is no longer appended) is not the failure looked for"""
+    def f(defs, k, v, ops):
+        body = defs[k][1]
+        if kind(body) != 'record' or not bc.in_domain(body, bc.complete(body, v)) or not bc.constructible(body):
+            return False
+        bad = bc.reenc_history(B, style, defs, k, v, tail, which, ops=ops)[0]
+        return bad is not None and bad[2] == how
+    return f
+
+
+def check_reenc(ctx, B, style, defs, k, v, tail, which, ops, label, lines, expect, cap=0):
+    """oracle for one history on one message object (generated while it runs when `ops` is None); appends the model question"""
+    labels = []
+    bad, done, actual0, entries = bc.reenc_history(B, style, defs, k, v, tail, which, ops=ops, rng=ctx.rng, cap=cap, labels=labels)
+    rep = bc.reenc_replay_dict(style, defs, k, v, tail, which, done)
+    ctx.case(bc.short(f'reenc {label} {which} {style} {rep["reg"]} {k} {sx(v)} {rep["ops"]}'), nontrivial=True, sample_every=37)
+    ctx.count('reenc:' + label + ':' + which)
+    ctx.count('reenc-encodings', sum(1 for o in done if o == ['t']))
+    for lb in labels:
+        ctx.count('reenc-change:' + lb)
+    if bad:
+        if len(ctx.violations) < 3:
+            try:
+                d2, k2, v2, o2 = bc.shrink_reenc(B, style, defs, k, v, tail, which, done[:bad[0] + 1], reenc_fails(B, style, tail, which, bad[2]))
+                b2 = bc.reenc_history(B, style, d2, k2, v2, tail, which, ops=o2)[0]
+                if b2 and b2[2] == bad[2]:
+                    defs, k, v, done, bad = d2, k2, v2, o2, b2
+            except Exception:  # noqa
+                pass
+        report(ctx, bad[1], bc.reenc_replay_dict(style, defs, k, v, tail, which, done))
+        return bad[1]
+    if actual0 is None or None in entries:
+        return None
+    lines.append(f'bin.obj {rep["reg"]} {k} {sx(actual0)} {sx(done)} {sx(tail)}')
+    expect.append((' ; '.join(entries), rep))
+    return None
+
+
+def ask_reenc(ctx, lines, expect):
+    if not (ctx.driver.available and lines):
+        return
+    for a, (g, rep) in zip(ctx.driver.ask(lines), expect):
+        if a != g:
+            am, gm = a.split(' ; '), g.split(' ; ')
+            i = next((j for j, (x, y) in enumerate(zip(am, gm)) if x != y), min(len(am), len(gm)))
+            ctx.disagree(f'message object over time, op {i}: model `{bc.short(am[i] if i < len(am) else "-", 100)}` vs implementation '
+                         f'`{bc.short(gm[i] if i < len(gm) else "-", 100)}`', rep)
+
+
+def run_reenc(ctx, B, n_cases, cap):
+    rng = ctx.rng
+    lines, expect = [], []
+    cdir = os.path.join(VERIF, 'corpus', 'C01')
+    if os.path.isdir(cdir):
+        for f in sorted(os.listdir(cdir)):
+            c = json.load(open(os.path.join(cdir, f)))
+            if c.get('kind') == 'msg-reenc':
+                style, defs, k, v, tail, which, ops = bc.reenc_from_replay(c)
+                check_reenc(ctx, B, style, defs, k, v, tail, which, ops, 'corpus', lines, expect)
+    for _ in range(n_cases):
+        if len(ctx.violations) >= 20:
+            break
+        style = rng.choice(['itch', 'ouch', 'sqf'])
+        inds = rng.sample(range(256), rng.randint(1, 3))
+        defs = [(i, bc.gen_record_ty(rng, 'record', rng.choice([1, 2, 2, 3]), 4)) for i in inds]
+        k = rng.randrange(len(defs))
+        v = bc.gen_val(rng, defs[k][1])
+        tail = gen_tail(rng)
+        for which in ('encoded', 'decoded'):
+            check_reenc(ctx, B, style, defs, k, v, tail, which, None, 'generated', lines, expect, cap=cap)
+    ask_reenc(ctx, lines, expect)
+
+
 # ------------------------------------------------------------------ main
 def check_domain_case(ctx, B, ty, v, tail, model_line, kind_='roundtrip'):
     """oracle + correspondence for one in-domain case; `v` is the abstract value (assigned fields only)"""
@@ -474,7 +530,13 @@ def run(ctx):
                        'plus FAMILIES of 2-5 message classes in one application declared by inheritance (a class derived from another registered '
                        'class with an extended / own / unchanged body, body records derived from body records, chains and siblings), each '
                        'family used in three orders of first use (parents first, children first, mixed with repeats; first use by encoding or '
-                       'by decoding) on freshly built classes: class of the decoded message, consumed length, reads, re-encoding, id byte')
+                       "by decoding) on freshly built classes: class of the decoded message, consumed length, reads, re-encoding, id byte; "
+                       'plus HISTORIES on one message object (the message built from the value, and the message object from_bytes returned): '
+                       'to_bytes, then an in-place change at a position the object offers at that moment - every field of every record '
+                       'reachable through the references it holds (nested records at any depth, an optional record that becomes present, '
+                       'records inside lists), every list it holds (append / item assignment / insert / del / clear / extend / slice '
+                       'assignment), fields of the message itself - each (position, kind) once per history, each followed by to_bytes + '
+                       'decode + the reads of the decoded message compared with what the message holds at that moment')
     n_rand = 2500 if quick else 60000
     n_off = 300 if quick else 4000
     n_mal = 400 if quick else 5000
@@ -601,6 +663,9 @@ def run(ctx):
     # ---- 4. message classes derived from message classes, several alive at once, every order of first use
     if len(ctx.violations) < 20:
         run_families(ctx, B, 60 if quick else 1500)
+    # ---- 5. one message OBJECT over time: encoded, changed in place at every position it offers, encoded again
+    if len(ctx.violations) < 20:
+        run_reenc(ctx, B, 200 if quick else 3000, 24 if quick else 40)
 
 
 def off_domain_oracle(ctx, B, ty, v, pobj, tail):
@@ -649,6 +714,18 @@ def replay(ctx, path):
         print('oracle:', bad or 'holds', '' if obs is None else obs[:4])
         if bad:
             report(ctx, bad, rep)
+        return
+    if rep.get('kind') == 'msg-reenc':
+        style, defs, k, v, tail, which, ops = bc.reenc_from_replay(rep)
+        lines, expect = [], []
+        print('message body:', bc.short(sx(defs[k][1]), 400), '\nfirst value: ', bc.short(sx(v), 300), f'\nobject:        the {which} message')
+        bad = check_reenc(ctx, B, style, defs, k, v, tail, which, ops, 'replay', lines, expect)
+        for o in ops:
+            print('  op:', 'to_bytes() + decode + compare reads' if o == ['t'] else 'change in place at ' + sx(o[1]) + ' ' + bc.short(sx(o[2]), 200))
+        print('oracle:', bad or 'holds')
+        if expect:
+            print('implementation:', bc.short(expect[0][0], 600))
+        ask_reenc(ctx, lines, expect)
         return
     if rep.get('kind') == 'msg-family':
         fam, hist = bc.family_from_replay(rep)
